@@ -725,7 +725,11 @@ Fixpoint send_loop (fuel : nat) (c : conn) (sq : option nat) (sched : list Z) (w
                    do h2 <- hfree h1 i; Ok (h2, c_sm c));
       let '(h2, smp) := r in
       let tl := match sq1 with None => None | Some _ => sq_tail c end in
-      let c1 := mkConn h2 (c_state c) (c_neg c) (c_cb c) smp sq1 tl l ul in
+      do h3 <- match sq1 with
+               | Some j => if loop_clears_prev then hupd h2 j (set_prev None) else Ok h2   (* else sq->prev = NULL; *)
+               | None => Ok h2
+               end;
+      let c1 := mkConn h3 (c_state c) (c_neg c) (c_cb c) smp sq1 tl l ul in
       send_loop f c1 sq1 sched1 (wire ++ [ev]) (match trigger c1 with Some b => Some b | None => cb end)
     end
   end.
